@@ -395,45 +395,85 @@ func ruleURLJoin(c *Ctx) {
 		if !ok || s.X != path || s.High != nil {
 			return
 		}
-		off := int64(-99)
-		low := s.Low
-		if b, ok := low.(*ssa.BinOp); ok && b.Op == token.SUB {
-			if k, ok := evalInt(b.Y); ok {
-				off = -k
-				low = b.X
+		// classify one (low value, block it is chosen in)
+		isSlashTest := func(cond ssa.Value) (bool, bool) { // (is the test, true means "URL ends in '/'")
+			bo, ok := cond.(*ssa.BinOp)
+			if !ok || (bo.Op != token.EQL && bo.Op != token.NEQ) {
+				return false, false
 			}
-		} else {
-			off = 0
+			k, ok := evalInt(bo.Y)
+			if !ok || k != '/' {
+				return false, false
+			}
+			base := strIndexBase(bo.X)
+			if base == nil {
+				return false, false
+			}
+			if f, _, ok := fieldLoad(base); !ok || f.Name() != "URL" {
+				return false, false
+			}
+			return true, bo.Op == token.EQL
 		}
-		lc, ok := low.(*ssa.Call)
-		if !ok || calleeName(&lc.Call) != "builtin.len" {
-			return
-		}
-		if f, _, ok := fieldLoad(lc.Call.Args[0]); !ok || f.Name() != "Pattern" {
-			return
-		}
-		// which edge of `URL[len-1] == '/'`
-		edge := 0
-		blk := ins.Block()
-		if len(blk.Preds) == 1 {
-			pr := blk.Preds[0]
-			if ifi, ok := pr.Instrs[len(pr.Instrs)-1].(*ssa.If); ok {
-				if bo, ok := ifi.Cond.(*ssa.BinOp); ok && bo.Op == token.EQL {
-					if k, ok := evalInt(bo.Y); ok && k == '/' {
-						if base := strIndexBase(bo.X); base != nil {
-							if f, _, ok := fieldLoad(base); ok && f.Name() == "URL" {
-								if pr.Succs[0] == blk {
-									edge = 1
-								} else {
-									edge = 2
-								}
-							}
+		classify := func(low ssa.Value, at ssa.Instruction, viaIf *ssa.BasicBlock, viaSucc int) {
+			off := int64(-99)
+			if b, ok := low.(*ssa.BinOp); ok && b.Op == token.SUB {
+				if k, ok := evalInt(b.Y); ok {
+					off = -k
+					low = b.X
+				}
+			} else {
+				off = 0
+			}
+			lc, ok := low.(*ssa.Call)
+			if !ok || calleeName(&lc.Call) != "builtin.len" {
+				return
+			}
+			if f, _, ok := fieldLoad(lc.Call.Args[0]); !ok || f.Name() != "Pattern" {
+				return
+			}
+			edge := 0
+			if viaIf != nil {
+				if ifi, ok := viaIf.Instrs[len(viaIf.Instrs)-1].(*ssa.If); ok {
+					if is, pos := isSlashTest(ifi.Cond); is {
+						if (viaSucc == 0) == pos {
+							edge = 1
+						} else {
+							edge = 2
 						}
 					}
 				}
 			}
+			if edge == 0 && at != nil {
+				domConds(at, func(cond ssa.Value, taken bool) {
+					if is, pos := isSlashTest(cond); is {
+						if taken == pos {
+							edge = 1
+						} else {
+							edge = 2
+						}
+					}
+				})
+			}
+			found = append(found, sl{off, edge})
 		}
-		found = append(found, sl{off, edge})
+		if phi, isPhi := s.Low.(*ssa.Phi); isPhi {
+			// `cut := len(pattern); if URL does not end in '/' { cut-- }`: one slice, the offset chosen by the test
+			for i, e := range phi.Edges {
+				pred := phi.Block().Preds[i]
+				if _, isIf := pred.Instrs[len(pred.Instrs)-1].(*ssa.If); isIf {
+					succ := 0
+					if pred.Succs[1] == phi.Block() {
+						succ = 1
+					}
+					classify(e, nil, pred, succ)
+				} else {
+					classify(e, pred.Instrs[len(pred.Instrs)-1], nil, 0)
+				}
+			}
+			return
+		}
+		classify(s.Low, ins, nil, 0)
+		return
 	})
 	okSlash, okNo := false, false
 	bad := false
